@@ -33,6 +33,7 @@ LEAN_MODULE = "NixModel.Props.C18"
 THEOREMS = [
     "Nix.C18.C18_bump_last",
     "Nix.C18.C18_version_old_while_interrupted",
+    "Nix.C18.C18_interrupted_reads_same",
     "Nix.C18.C18_resumable",
     "Nix.C18.C18_resumable_total",
     "Nix.C18.C18_resumable_history",
